@@ -516,8 +516,8 @@ impl Check for KvCheck {
 
     fn budget(_id: &str, tier: Tier) -> Budget {
         match tier {
-            Tier::Quick => Budget { cases: 40_000, max_bytes: 700 },
-            Tier::Thorough => Budget { cases: 600_000, max_bytes: 1400 },
+            Tier::Quick => Budget { cases: 160_000, max_bytes: 700 },
+            Tier::Thorough => Budget { cases: 2_000_000, max_bytes: 1400 },
         }
     }
 
